@@ -133,6 +133,74 @@ class SymArray(_np.ndarray):
         return super(SymArray, self).__setitem__(idx, val)
 
 
+INT_CELLS = set()
+
+
+def _trunc_cell(v):
+    """what NumPy stores when v is assigned into an array of an integer
+    dtype: the value cast to an integer (an uninterpreted ``trunc`` for a
+    symbolic real; cells declared integer are kept)"""
+    if isinstance(v, Sym):
+        if v.t in INT_CELLS:
+            return v
+        if T.is_const(v.t) and T.cval(v.t).denominator == 1:
+            return v
+        return Sym(T.mk('f', 'trunc', v.t))
+    if v is UNINIT:
+        return v
+    if isinstance(v, (float, _np.floating)):
+        return int(v)
+    return v
+
+
+def _trunc(val):
+    if isinstance(val, _np.ndarray):
+        out = _np.empty(val.shape, dtype=object)
+        for i, e in enumerate(val.flat):
+            out.flat[i] = _trunc_cell(e)
+        return out
+    if isinstance(val, (list, tuple)):
+        return _trunc(_np.array(val, dtype=object))
+    return _trunc_cell(val)
+
+
+class SymIntArray(SymArray):
+    """Stands for an ndarray of an *integer dtype* whose cells are symbolic
+    integers.  Arithmetic on it gives ordinary (real) cells -- exact for
+    ``+ - *`` on integers, and what NumPy does for ``/`` and mixed operands
+    -- but an assignment into it casts (NumPy truncates silently), and so
+    does an array allocated ``*_like`` it."""
+
+    def __array_ufunc__(self, ufunc, method, *inputs, **kwargs):
+        # (plain ndarrays: reductions of a subclass give 0-d arrays)
+        inputs = tuple(i.view(_np.ndarray) if isinstance(i, SymIntArray)
+                       else i for i in inputs)
+        return getattr(ufunc, method)(*inputs, **kwargs)
+
+    def __setitem__(self, idx, val):
+        return super(SymIntArray, self).__setitem__(idx, _trunc(val))
+
+
+def int_array(cells):
+    """harness API: an integer-dtype array with the given symbolic cells"""
+    a = _np.array(cells, dtype=object)
+    for e in a.flat:
+        if isinstance(e, Sym):
+            INT_CELLS.add(e.t)
+    return a.view(SymIntArray)
+
+
+def _like(a, dtype):
+    """dtype an array allocated like ``a`` gets: 'int' or None (real)"""
+    if dtype is not None:
+        return None
+    if isinstance(a, SymIntArray):
+        return 'symint'
+    if isinstance(a, _np.ndarray) and a.dtype.kind in 'biu':
+        return 'int'
+    return None
+
+
 def _concretise_index(idx):
     if isinstance(idx, _np.ndarray) and idx.dtype == object and idx.size and \
             all(isinstance(e, (SymBool, bool, _np.bool_)) for e in idx.flat):
@@ -199,20 +267,24 @@ class NP(object):
             return _np.full(shape, fill_value, dtype=dtype, **k)
         return self._alloc(shape, Sym.lift(fill_value), None)
 
+    def _like_alloc(self, real, fill, a, dtype, k):
+        like = _like(a, dtype)
+        if _is_int_dtype(dtype) or like == 'int':
+            # (an integer array stays one: NumPy keeps the dtype of ``a``)
+            return real(a, dtype=dtype, **k)
+        out = self._alloc(_np.shape(a), fill, None)
+        if like == 'symint':
+            out = out.view(SymIntArray)
+        return out
+
     def zeros_like(self, a, dtype=None, **k):
-        if _is_int_dtype(dtype):
-            return _np.zeros_like(a, dtype=dtype, **k)
-        return self.zeros(_np.shape(a))
+        return self._like_alloc(_np.zeros_like, Sym(T.ZERO), a, dtype, k)
 
     def ones_like(self, a, dtype=None, **k):
-        if _is_int_dtype(dtype):
-            return _np.ones_like(a, dtype=dtype, **k)
-        return self.ones(_np.shape(a))
+        return self._like_alloc(_np.ones_like, Sym(T.ONE), a, dtype, k)
 
     def empty_like(self, a, dtype=None, **k):
-        if _is_int_dtype(dtype):
-            return _np.empty_like(a, dtype=dtype, **k)
-        return self.empty(_np.shape(a))
+        return self._like_alloc(_np.empty_like, UNINIT, a, dtype, k)
 
     # -- conversion ---------------------------------------------------------
     def asarray(self, x, dtype=None, **k):
